@@ -8,10 +8,10 @@ package main
 
 import (
 	"go/constant"
-	"strconv"
 	"go/token"
 	"go/types"
 	"sort"
+	"strconv"
 	"strings"
 
 	"golang.org/x/tools/go/ssa"
@@ -22,15 +22,15 @@ type kenv struct {
 	// into a variable before they are switched on)
 	cur     map[*ssa.Alloc]constant.Value
 	x       *FnIndex
-	kindOf  map[ssa.Value]string // reflect.Value parameter -> Kind().String()
-	intOf   map[ssa.Value]int64  // int parameter -> value
-	strOf   map[ssa.Value]string // string parameter -> value
-	mapKeys map[string]bool      // keys of the string->string table consulted with comma-ok (TypeMap)
-	kindNum map[string]int64     // lower-case kind name -> reflect.Kind value (filled by explore)
-	curF    map[string]constant.Value // constants held by fields of local struct variables on the path
-	curS    map[*ssa.Alloc]ssa.Value  // a non-constant condition a bool variable holds on the path (`zero := b.Int() == 0`)
-	curV    map[*ssa.Alloc]ssa.Value  // which value a reflect.Value variable holds on the path (`value = value.Elem()` under a test)
-	visited map[*ssa.BasicBlock]bool  // blocks reached by the last explore
+	kindOf  map[ssa.Value]string               // reflect.Value parameter -> Kind().String()
+	intOf   map[ssa.Value]int64                // int parameter -> value
+	strOf   map[ssa.Value]string               // string parameter -> value
+	mapKeys map[string]bool                    // keys of the string->string table consulted with comma-ok (TypeMap)
+	kindNum map[string]int64                   // lower-case kind name -> reflect.Kind value (filled by explore)
+	curF    map[string]constant.Value          // constants held by fields of local struct variables on the path
+	curS    map[*ssa.Alloc]ssa.Value           // a non-constant condition a bool variable holds on the path (`zero := b.Int() == 0`)
+	curV    map[*ssa.Alloc]ssa.Value           // which value a reflect.Value variable holds on the path (`value = value.Elem()` under a test)
+	visited map[*ssa.BasicBlock]bool           // blocks reached by the last explore
 	callInt func(call *ssa.Call) (int64, bool) // value of a call of another function of the table (getNumType), per explored kind
 	// condMark, when set, is asked at every branch with the condition actually tested (a
 	// condition kept in a bool variable is replaced by the value stored on this path)
@@ -77,7 +77,6 @@ func (e *kenv) structConst(v ssa.Value, d int) ([]constant.Value, bool) {
 	}
 	return nil, false
 }
-
 
 // pathConst: the constant a variable read holds on the current path.
 func (e *kenv) pathConst(v ssa.Value) (constant.Value, bool) {
@@ -200,6 +199,17 @@ func (e *kenv) evalInt(v ssa.Value) (int64, bool) {
 
 // evalKind: (reflect.Value).Kind() of a parameter compared with a reflect.Kind constant
 func (e *kenv) evalKindName(v ssa.Value) (string, bool) {
+	// typ.Kind() through the reflect.Type interface (tf.In(i).Kind())
+	if kc, ok := e.x.Origin(v).(*ssa.Call); ok && kc.Call.IsInvoke() && kc.Call.Method.Name() == "Kind" {
+		if k, ok := e.kindOf[e.x.Origin(kc.Call.Value)]; ok {
+			return k, true
+		}
+		if r := e.rootValue(kc.Call.Value); r != nil {
+			k, ok := e.kindOf[r]
+			return k, ok
+		}
+		return "", false
+	}
 	if kc, ok := e.x.Origin(v).(*ssa.Call); ok && kc.Call.StaticCallee() != nil && kc.Call.StaticCallee().Name() == "Kind" && len(kc.Call.Args) == 1 {
 		recv := kc.Call.Args[0]
 		// Kind() of the Type() of a value is the kind of the value
